@@ -462,7 +462,8 @@ def ambiguous_implicit_output(case):
         return {n.name for n in walk(e) if isinstance(n, Ax)} | {n.uid for n in walk(e) if isinstance(n, Num) and n.value != 1}
 
     ns = [names_of(e) for e in case.inputs]
-    texts = [pr(e) for e in case.inputs]
+    from .expr import strip_redundant_parens
+    texts = [pr(strip_redundant_parens(e)) for e in case.inputs]  # inputs that differ only by redundant parentheses are the same expression
     parents = [i for i in range(len(ns)) if all(ns[j] <= ns[i] for j in range(len(ns)) if j != i)]
     if len(parents) == 0 or len({texts[i] for i in parents}) > 1:
         return [("ambiguous-implicit-output-rejected", _call(case, outputs=None), "MUST-RAISE:SemanticError")]
